@@ -3,12 +3,17 @@
 //
 //	go run ./gen_panicsites <repo> <out.v>
 //
-// For every function of the listed files it records (function, kind, expression text):
+// For every function reachable (syntactically, by name) from the entry points of pool admission and
+// governance execution inside packages types, contract/system, contract/name,
+// contract/enterprise and chain/governance.go it records (function, kind, expression text):
 //
 //	assert  single-value type assertion x.(T)   (the `v, ok := x.(T)` form cannot panic and is not listed)
 //	index   index expression a[i]               (slices, strings and maps are not distinguished: no type information)
 //	slice   slice expression a[i:j]
 //	panic   explicit call of panic(...)
+//	indexwrite  assignment through an index expression m[k] = v (nil map / out of range)
+//	div     integer division or remainder by a non-literal, and big.Int Div/Quo/Mod/Rem/DivMod/QuoRem
+//	make    make(T, n) with a non-literal size
 //
 // Identical triples within one function are merged into one entry with their count.
 //
@@ -30,28 +35,35 @@ import (
 	"strings"
 )
 
-// files whose functions are inventoried; value = functions excluded (not on the
-// admission or governance execution path: query helpers, genesis/bootstrap, cloning).
-var files = map[string][]string{
-	"types/transaction.go":                 {"Clone"},
-	"types/account.go":                     {"EncodePrivKey", "DecodePrivKey", "NewAccount", "ToString", "NewAccountList"},
-	"types/callinfo.go":                    {},
-	"contract/system/validation.go":        {},
-	"contract/system/execute.go":           {"GetVotes"},
-	"contract/system/vote.go":              {"BuildOrderedCandidates", "GetVoteResult", "GetRankers", "initVotingCatalog", "init"},
-	"contract/system/staking.go":           {},
-	"contract/system/voteresult.go":        {"InitVoteResult", "getVoteResult"},
-	"contract/name/execute.go":             {},
-	"contract/name/name.go":                {"GetNameInfo"},
-	"contract/enterprise/validate.go":      {},
-	"contract/enterprise/execute.go":       {"init"},
-	"contract/enterprise/admin.go":         {"GetAdmin"},
-	"contract/enterprise/config.go":        {"GetConf"},
-	"contract/enterprise/changecluster.go": {},
-	"chain/governance.go":                  {"InitGenesisBPs"},
+// package directory -> files parsed (nil = every non-test, non-generated file of the directory)
+var pkgFiles = map[string][]string{
+	"types":               nil,
+	"contract/system":     nil,
+	"contract/name":       nil,
+	"contract/enterprise": nil,
+	"chain":               {"governance.go"},
+}
+
+// package import name -> directory (calls `system.X(...)` from another package of the set are followed)
+var pkgDir = map[string]string{"types": "types", "system": "contract/system", "name": "contract/name", "enterprise": "contract/enterprise", "chain": "chain"}
+
+// entry points of pool admission (mempool.verifyTx / validateTx) and of governance execution
+// (chain.executeTx -> executeGovernanceTx); every function reachable from them inside the set is inventoried.
+var roots = []string{
+	"types.transaction.Validate", "types.transaction.ValidateWithSenderState", "types.transaction.ValidateMaxFee",
+	"system.ValidateSystemTx", "system.ExecuteSystemTx", "system.GetGasPrice", "system.GetNamePrice", "system.GetStakingMinimum",
+	"name.ValidateNameTx", "name.ExecuteNameTx", "name.Resolve", "name.GetAddress",
+	"enterprise.ValidateEnterpriseTx", "enterprise.ExecuteEnterpriseTx",
+	"chain.executeGovernanceTx",
 }
 
 type site struct{ fn, kind, expr string }
+
+type fn struct {
+	pkg  string
+	name string // pkg.Func or pkg.Recv.Method
+	decl *ast.FuncDecl
+}
 
 func main() {
 	if len(os.Args) != 3 {
@@ -59,35 +71,104 @@ func main() {
 		os.Exit(2)
 	}
 	repo, out := os.Args[1], os.Args[2]
-	var sites []site
-	var names []string
-	for f := range files {
-		names = append(names, f)
-	}
-	sort.Strings(names)
 	fset := token.NewFileSet()
-	for _, rel := range names {
-		excl := map[string]bool{}
-		for _, e := range files[rel] {
-			excl[e] = true
+	funcs := map[string]*fn{}          // full name -> decl
+	byBare := map[string][]string{}    // pkg + "." + bare function/method name -> full names
+	for pkg, dir := range pkgDir {
+		list := pkgFiles[dir]
+		if list == nil {
+			ents, err := os.ReadDir(filepath.Join(repo, dir))
+			if err != nil {
+				fmt.Fprintln(os.Stderr, err)
+				os.Exit(1)
+			}
+			for _, e := range ents {
+				n := e.Name()
+				if strings.HasSuffix(n, ".go") && !strings.HasSuffix(n, "_test.go") && !strings.HasSuffix(n, ".pb.go") && !strings.HasSuffix(n, "_string.go") {
+					list = append(list, n)
+				}
+			}
 		}
-		af, err := parser.ParseFile(fset, filepath.Join(repo, rel), nil, 0)
-		if err != nil {
-			fmt.Fprintln(os.Stderr, "parse:", err)
+		sort.Strings(list)
+		for _, f := range list {
+			af, err := parser.ParseFile(fset, filepath.Join(repo, dir, f), nil, 0)
+			if err != nil {
+				fmt.Fprintln(os.Stderr, "parse:", err)
+				os.Exit(1)
+			}
+			for _, d := range af.Decls {
+				fd, ok := d.(*ast.FuncDecl)
+				if !ok || fd.Body == nil {
+					continue
+				}
+				name := pkg + "." + fd.Name.Name
+				if fd.Recv != nil && len(fd.Recv.List) == 1 {
+					name = pkg + "." + recvName(fd.Recv.List[0].Type) + "." + fd.Name.Name
+				}
+				funcs[name] = &fn{pkg, name, fd}
+				k := pkg + "." + fd.Name.Name
+				byBare[k] = append(byBare[k], name)
+			}
+		}
+	}
+	// reachability (syntactic: a call f(...) resolves to the package's function f, x.m(...) to every
+	// method m of the package -- or to pkg.m when x is a package of the set)
+	reach := map[string]bool{}
+	var work []string
+	for _, r := range roots {
+		if _, ok := funcs[r]; !ok {
+			fmt.Fprintln(os.Stderr, "root not found:", r) // a renamed entry point must not silently shrink the inventory
 			os.Exit(1)
 		}
-		pkg := filepath.Base(filepath.Dir(rel))
-		for _, d := range af.Decls {
-			fd, ok := d.(*ast.FuncDecl)
-			if !ok || fd.Body == nil || excl[fd.Name.Name] {
-				continue
+		reach[r] = true
+		work = append(work, r)
+	}
+	for len(work) > 0 {
+		cur := funcs[work[len(work)-1]]
+		work = work[:len(work)-1]
+		ast.Inspect(cur.decl.Body, func(n ast.Node) bool {
+			ce, ok := n.(*ast.CallExpr)
+			if !ok {
+				return true
 			}
-			name := pkg + "." + fd.Name.Name
-			if fd.Recv != nil && len(fd.Recv.List) == 1 {
-				name = pkg + "." + recvName(fd.Recv.List[0].Type) + "." + fd.Name.Name
+			var cands []string
+			switch f := ce.Fun.(type) {
+			case *ast.Ident:
+				if _, ok := funcs[cur.pkg+"."+f.Name]; ok {
+					cands = []string{cur.pkg + "." + f.Name}
+				}
+			case *ast.SelectorExpr:
+				if id, ok := f.X.(*ast.Ident); ok {
+					if _, isPkg := pkgDir[id.Name]; isPkg && id.Obj == nil {
+						if _, ok := funcs[id.Name+"."+f.Sel.Name]; ok {
+							cands = []string{id.Name + "." + f.Sel.Name}
+						}
+						break
+					}
+				}
+				for _, c := range byBare[cur.pkg+"."+f.Sel.Name] {
+					if strings.Count(c, ".") == 2 { // a method
+						cands = append(cands, c)
+					}
+				}
 			}
-			sites = append(sites, scan(fset, name, fd.Body)...)
-		}
+			for _, c := range cands {
+				if !reach[c] {
+					reach[c] = true
+					work = append(work, c)
+				}
+			}
+			return true
+		})
+	}
+	var names []string
+	for n := range reach {
+		names = append(names, n)
+	}
+	sort.Strings(names)
+	var sites []site
+	for _, n := range names {
+		sites = append(sites, scan(fset, n, funcs[n].decl.Body)...)
 	}
 	sort.Slice(sites, func(i, j int) bool {
 		a, b := sites[i], sites[j]
@@ -184,11 +265,51 @@ func scan(fset *token.FileSet, fn string, body *ast.BlockStmt) []site {
 			if id, ok := x.Fun.(*ast.Ident); ok && id.Name == "panic" {
 				res = append(res, site{fn, "panic", text(fset, x)})
 			}
+			// make([]T, n) / make([]T, n, m) with a non-constant size
+			if id, ok := x.Fun.(*ast.Ident); ok && id.Name == "make" && len(x.Args) >= 2 {
+				for _, a := range x.Args[1:] {
+					if _, lit := a.(*ast.BasicLit); !lit {
+						if _, isId := a.(*ast.Ident); !isId || !isConstLike(a.(*ast.Ident).Name) {
+							res = append(res, site{fn, "make", text(fset, x)})
+							break
+						}
+					}
+				}
+			}
+			// big.Int division: panics on a zero divisor
+			if se, ok := x.Fun.(*ast.SelectorExpr); ok {
+				switch se.Sel.Name {
+				case "Div", "Quo", "Mod", "Rem", "DivMod", "QuoRem":
+					if len(x.Args) >= 2 {
+						res = append(res, site{fn, "div", text(fset, x)})
+					}
+				}
+			}
+		case *ast.BinaryExpr:
+			if x.Op == token.QUO || x.Op == token.REM {
+				if _, lit := x.Y.(*ast.BasicLit); !lit {
+					res = append(res, site{fn, "div", text(fset, x)})
+				}
+			}
+		case *ast.AssignStmt:
+			// m[k] = v / m[k] op= v: a write through an index expression (panics on a nil map, or out of range)
+			for _, l := range x.Lhs {
+				if ie, ok := l.(*ast.IndexExpr); ok {
+					res = append(res, site{fn, "indexwrite", text(fset, ie)})
+				}
+			}
+		case *ast.IncDecStmt:
+			if ie, ok := x.X.(*ast.IndexExpr); ok {
+				res = append(res, site{fn, "indexwrite", text(fset, ie)})
+			}
 		}
 		return true
 	})
 	return res
 }
+
+// identifiers that look like constants (CamelCase package constants such as bucketsMax are not: conservative)
+func isConstLike(n string) bool { return false }
 
 func coqStr(s string) string {
 	return `"` + strings.ReplaceAll(s, `"`, `""`) + `"`
